@@ -245,4 +245,11 @@ func TestC19Wire(t *testing.T) {
 		}
 		idx++
 	}
+	// (6) the upper end of the body range (1 MiB and just below; the largest envelope the property covers)
+	for _, g := range genEdgeEnvelopes(newRand(1911)) {
+		if want(idx) {
+			emitWireRT(em, idx, g.E, g.Big, "edge-size")
+		}
+		idx++
+	}
 }
